@@ -212,7 +212,7 @@ fn main() {
     let real = std::env::args().any(|a| a == "--real-forwarder");
     let real_listener = std::net::TcpListener::bind("127.0.0.1:0").unwrap();
     let real_port = real_listener.local_addr().unwrap().port();
-    let closed_port = { let l = std::net::TcpListener::bind("127.0.0.1:0").unwrap(); l.local_addr().unwrap().port() };
+    let closed_port = 1u16; // nothing listens on tcpmux: refused, and no other process can grab it
     let enetunreach = matches!(std::net::TcpStream::connect_timeout(&"224.0.0.1:80".parse().unwrap(), Duration::from_secs(2)), Err(e) if e.raw_os_error() == Some(libc::ENETUNREACH));
     if real && !enetunreach {
         rep.note("connect to 224.0.0.1 does not fail with ENETUNREACH here: the 'unreachable' outcome is not exercised with the real forwarder");
